@@ -103,7 +103,9 @@ Domain(f, c) ==
     [] f = "cffidx"   -> IF c.kind = "ttf" THEN {"off"} ELSE IF G(c, "index") THEN {"name", "string", "charstrings"}
                          ELSE {"off", "name", "string", "charstrings"}
     [] f = "idxlen"   -> IF c.cffidx = "off" THEN {0}
-                         ELSE IF c.cffidx = "name" \/ Focus = "random" THEN {l \in IdxLens : l < 1000} ELSE IdxLens
+                         \* (the strings of the String INDEX also live in the name table, whose storage is limited
+                         \* to 64 kB: only the CharStrings INDEX is taken to the 65535/65536 switch)
+                         ELSE IF c.cffidx # "charstrings" \/ Focus = "random" THEN {l \in IdxLens : l < 1000} ELSE IdxLens
     \* a table that is larger than the parser's 1024-byte window
     [] f = "big"      -> IF G(c, "big") THEN {"gdef", "scripts", "features", "lookups", "name"}
                          ELSE {"off", "gdef", "scripts", "features", "lookups", "name"}
